@@ -103,6 +103,7 @@ Info == /\ st = "open"
 \* (images are STORED pixel-interlaced: the interlace given to GRcreate describes the caller's buffers of
 \*  the creating session only; a re-selected image is pixel-interlaced)
 Reopen == /\ st = "open" /\ ril' = 0 /\ il' = 0
+          /\ touched            \* (an image that has never been written has no data element yet: not generated)
           /\ Log("Reopen", [a |-> 0], [ret |-> 0, ncomp |-> NC, il |-> 0, w |-> W, h |-> H])
           /\ UNCHANGED <<st, W, H, NC, pix, lut, layout, touched, wc>>
 
